@@ -512,9 +512,31 @@ def run(rep: Report, prog: Program, tier: str) -> None:
             rep.fail(mk_finding(prog, PROP, "C03-DTLSROLE", create_answer, role_if, f"with transport role {role!r} the answer announces DTLS role {got!r}; it must be {want!r}",
                                 construct=f"answer role for {role}"))
     # setRemoteDescription: statements calling dtlsTransport._set_role
-    stmts = [n for n in walk_no_nested(set_remote.node) if isinstance(n, ast.If) and any(isinstance(x, ast.Call) and unparse(x.func) == "dtlsTransport._set_role" for x in ast.walk(n))
-             and unparse(n.test).startswith("description.type")]
-    if len(stmts) < 2:
+    # innermost If statements that contain a _set_role call and whose test depends (directly or through a local flag) on the description type
+    pm_sr = {}
+    for p_ in ast.walk(set_remote.node):
+        for ch in ast.iter_child_nodes(p_):
+            pm_sr[id(ch)] = p_
+    flags = {}   # local names assigned from an expression over description.type, e.g. isOffer = description.type == "offer"
+    for n in walk_no_nested(set_remote.node):
+        if isinstance(n, ast.Assign) and len(n.targets) == 1 and isinstance(n.targets[0], ast.Name) and "description.type" in unparse(n.value) \
+                and all(isinstance(x, (ast.Compare, ast.Attribute, ast.Name, ast.Constant, ast.Load, ast.Eq, ast.NotEq, ast.In, ast.NotIn, ast.List, ast.Tuple, ast.BoolOp, ast.And, ast.Or)) for x in ast.walk(n.value)):
+            flags[n.targets[0].id] = n
+    stmts = []
+    for c_ in [x for x in walk_no_nested(set_remote.node) if isinstance(x, ast.Call) and unparse(x.func) == "dtlsTransport._set_role"]:
+        cur = c_
+        top = None
+        while id(cur) in pm_sr:
+            par = pm_sr[id(cur)]
+            if isinstance(par, ast.If) and ("description.type" in unparse(par.test) or any(f in {x.id for x in ast.walk(par.test) if isinstance(x, ast.Name)} for f in flags)):
+                top = par
+            if isinstance(par, (ast.For, ast.AsyncFor, ast.FunctionDef, ast.AsyncFunctionDef)):
+                break
+            cur = par
+        if top is not None and not any(top is s_ for s_ in stmts):
+            stmts.append(top)
+    stmts.sort(key=lambda n: n.lineno)
+    if len(stmts) < 1:
         raise AnalysisError("DTLS role statements not found in setRemoteDescription")
     table = {("offer", "auto"): [], ("offer", "client"): ["server"], ("offer", "server"): [], ("answer", "client"): ["server"], ("answer", "server"): ["client"]}
     for (typ, rrole), want in table.items():
@@ -528,6 +550,8 @@ def run(rep: Report, prog: Program, tier: str) -> None:
             return NotImplemented
         e2 = Evaluator(prog, mod, None, {"description": SimpleNamespace(type=typ), "media": SimpleNamespace(dtls=SimpleNamespace(role=rrole))}, ex2)
         try:
+            for fl in flags.values():
+                e2.exec_stmt(fl)
             for s in stmts:
                 e2.exec_stmt(s)
         except (Raised, Unknown) as ex:
@@ -605,12 +629,20 @@ def run(rep: Report, prog: Program, tier: str) -> None:
         raise AnalysisError("setTransport() calls of the bundling step not found in setRemoteDescription")
     # the transport everything is moved onto must never be among the transports that are stopped afterwards (an object that is
     # marked bundled may have been created on the transport of one that is not, e.g. max-bundle with the data channel first)
-    adds = [n for n in walk_no_nested(set_remote.node) if isinstance(n, ast.Call) and unparse(n.func) == "oldTransports.add"]
-    stops = [n for n in walk_no_nested(set_remote.node) if isinstance(n, ast.For) and unparse(n.iter) == "oldTransports"
-             and any(isinstance(a, ast.Await) and unparse(a.value.func).endswith(".stop") for b in n.body for a in ast.walk(b) if isinstance(a.value, ast.Call))]
-    if not adds or len(stops) != 1:
+    # the collection is whatever local set the loop that awaits `.stop()` on its elements iterates over; the primary transport is the
+    # argument of the setTransport() calls
+    stops = [n for n in walk_no_nested(set_remote.node) if isinstance(n, ast.For) and isinstance(n.iter, ast.Name)
+             and any(isinstance(a, ast.Await) and isinstance(a.value, ast.Call) and unparse(a.value.func).endswith(".stop") for b in n.body for a in ast.walk(b))]
+    prim_names = {unparse(n.args[0]) for n in walk_no_nested(set_remote.node)
+                  if isinstance(n, ast.Call) and isinstance(n.func, ast.Attribute) and n.func.attr == "setTransport" and n.args}
+    if len(stops) != 1 or len(prim_names) != 1:
         raise AnalysisError("setRemoteDescription: collection / stopping of the old transports not found")
-    excluded = any(isinstance(n, ast.Call) and unparse(n.func) in ("oldTransports.discard", "oldTransports.remove") and n.args and unparse(n.args[0]) == "primaryTransport"
+    coll = stops[0].iter.id
+    prim = next(iter(prim_names))
+    adds = [n for n in walk_no_nested(set_remote.node) if isinstance(n, ast.Call) and unparse(n.func) == f"{coll}.add"]
+    if not adds:
+        raise AnalysisError("setRemoteDescription: collection / stopping of the old transports not found")
+    excluded = any(isinstance(n, ast.Call) and unparse(n.func) in (f"{coll}.discard", f"{coll}.remove") and n.args and unparse(n.args[0]) == prim
                    and n.lineno < stops[0].lineno for n in walk_no_nested(set_remote.node))
     guarded_adds = True
     for a in adds:
@@ -618,12 +650,12 @@ def run(rep: Report, prog: Program, tier: str) -> None:
         g = False
         while id(cur) in pmr:
             par = pmr[id(cur)]
-            if isinstance(par, ast.If) and any(cur is b for b in par.body) and "is not primaryTransport" in unparse(par.test) or (isinstance(par, ast.If) and "!= primaryTransport" in unparse(par.test)):
+            if isinstance(par, ast.If) and any(cur is b for b in par.body) and (f"is not {prim}" in unparse(par.test) or f"!= {prim}" in unparse(par.test)):
                 g = True
             cur = par
         guarded_adds = guarded_adds and g
     if excluded or guarded_adds:
-        rep.ok("C03-BUNDLE", "setRemoteDescription: the primary transport is excluded from the transports that are stopped", sample="oldTransports.discard(primaryTransport)" if excluded else "guarded adds")
+        rep.ok("C03-BUNDLE", "setRemoteDescription: the primary transport is excluded from the transports that are stopped", sample=f"{coll}.discard({prim})" if excluded else "guarded adds")
     else:
         rep.fail(mk_finding(prog, PROP, "C03-BUNDLE", set_remote, stops[0], "the transports of the objects moved onto the primary transport are stopped without excluding the primary "
                             "transport itself: when a moved object was already using it (max-bundle offerer that created its data channel before its first transceiver) the "
